@@ -59,6 +59,7 @@ theorem gen_update_locked :
        "  idk.data[tpl] = state + 1",
        "else",
        "  idk.data[tpl] = 0",
+       "idk.used[tpl] = bpv7.DtnTimeNow()",
        "bndl.PrimaryBlock.CreationTimestamp[1] = idk.data[tpl]",
        "for ; taken != nil && taken(bndl.ID());",
        "  idk.data[tpl] = idk.data[tpl] + 1",
@@ -67,22 +68,26 @@ theorem gen_update_locked :
        "if idk.autoClean",
        "  idk.clean()"] ∧
     Dtn7.Gen.C14.newIdKeeperSkeleton =
-      ["return IdKeeper{ data: make(map[idTuple]uint64), autoClean: true, }"] ∧
+      ["return IdKeeper{ data: make(map[idTuple]uint64), used: make(map[idTuple]bpv7.DtnTime), autoClean: true, }"] ∧
     Dtn7.Gen.C14.newIdTupleSkeleton =
       ["return idTuple{ source: bndl.PrimaryBlock.SourceNode, time: bndl.PrimaryBlock.CreationTimestamp.DtnTime(), }"] := by
   decide
 
-/-- `IdKeeper.clean`: the comparison of the model, and a retention constant of one day expressed in
+/-- `IdKeeper.clean`: the comparison of the model — the time of the tuple's LAST USE (`idk.used`, written by
+`updateUnless` inside its critical section: `gen_update_locked`) against the threshold, the epoch time
+exempt; both maps lose the entry —, and a retention constant of one day expressed in
 the unit of `DtnTime` (milliseconds: `DtnTimeFromTime` divides nanoseconds by `nanoToMilli`). -/
 theorem gen_clean_window :
     Dtn7.Gen.C14.cleanWindow = Cfg.code.window ∧
     Dtn7.Gen.C14.cleanWindow * Dtn7.Gen.C14.nanoToMilli = 24 * 60 * 60 * 1000000000 ∧
+    Dtn7.Gen.C14.cleanJudgesByUse = Cfg.code.byUse ∧
     Dtn7.Gen.C14.cleanSkeleton =
       ["idk.mutex.Lock()",
        "var threshold = bpv7.DtnTimeNow() - 60*60*24*1000",
-       "for tpl := range idk.data",
-       "  if tpl.time < threshold && tpl.time != bpv7.DtnTimeEpoch",
+       "for tpl, used := range idk.used",
+       "  if used < threshold && tpl.time != bpv7.DtnTimeEpoch",
        "    delete(idk.data, tpl)",
+       "    delete(idk.used, tpl)",
        "idk.mutex.Unlock()"] ∧
     Dtn7.Gen.C14.dtnTimeFromTimeSkeleton =
       ["return (DtnTime)((t.UTC().UnixNano() / nanoToMilli) - milliseconds1970To2k)"] := by
@@ -106,29 +111,35 @@ theorem gen_descriptor_store :
 /-! ## The counter -/
 
 /-- **Per (source, time), while the entry is retained, the numbers are `next, next+1, …`** — for
-every script of `update`s (of arbitrary tuples) and `clean`s, with or without autoClean. -/
-theorem seq_consecutive (w : Nat) (auto : Bool) (κ : Key) (m : Keeper) (ops : List Op)
-    (hret : ∀ op ∈ ops, op.cleans auto = true → dropped w op.now κ = false) :
-    seqsOf w auto κ m ops = List.range' (nextOf (m κ)) (ops.countP (Lemmas.isUpd κ)) :=
-  Lemmas.seqsOf_eq w auto κ ops m hret
+every script of `update`s (of arbitrary tuples) and `clean`s, with or without autoClean. Retained: no
+`clean` of the script comes more than a window after the tuple's last use (the use before the script, `u κ`,
+and the `update`s of `κ` in the script) — the tuple's creation time does not matter any more. -/
+theorem seq_consecutive (w : Nat) (auto : Bool) (κ : Key) (m : Keeper) (u : Used) (ops : List Op)
+    (h0 : ∀ op ∈ ops, op.cleans auto = true → droppedAt w op.now (u κ) κ = false)
+    (hret : ∀ op ∈ ops, op.cleans auto = true → ∀ op' ∈ ops, Lemmas.isUpd κ op' = true →
+      droppedAt w op.now op'.now κ = false) :
+    seqsOf w auto κ m u ops = List.range' (nextOf (m κ)) (ops.countP (Lemmas.isUpd κ)) :=
+  Lemmas.seqsOf_eq w auto κ ops m u h0 hret
 
 /-- … in particular strictly increasing, and above everything handed out before. -/
-theorem seq_strictly_increasing (w : Nat) (auto : Bool) (κ : Key) (m : Keeper) (ops : List Op)
-    (hret : ∀ op ∈ ops, op.cleans auto = true → dropped w op.now κ = false) :
-    (seqsOf w auto κ m ops).Pairwise (· < ·) ∧ ∀ s ∈ seqsOf w auto κ m ops, nextOf (m κ) ≤ s := by
-  rw [seq_consecutive w auto κ m ops hret]
+theorem seq_strictly_increasing (w : Nat) (auto : Bool) (κ : Key) (m : Keeper) (u : Used) (ops : List Op)
+    (h0 : ∀ op ∈ ops, op.cleans auto = true → droppedAt w op.now (u κ) κ = false)
+    (hret : ∀ op ∈ ops, op.cleans auto = true → ∀ op' ∈ ops, Lemmas.isUpd κ op' = true →
+      droppedAt w op.now op'.now κ = false) :
+    (seqsOf w auto κ m u ops).Pairwise (· < ·) ∧ ∀ s ∈ seqsOf w auto κ m u ops, nextOf (m κ) ≤ s := by
+  rw [seq_consecutive w auto κ m u ops h0 hret]
   refine ⟨List.pairwise_lt_range' 1, ?_⟩
   intro s hs
   rw [List.mem_range'_1] at hs
   exact hs.1
 
-/-- The retention hypothesis in the form of the property text: the epoch time is always retained,
-and so is a creation time at most one window older than the clock (or in the future). -/
-theorem retained_epoch_or_recent (w now : Nat) (κ : Key)
-    (h : κ.time = 0 ∨ (w ≤ now ∧ now < 2 ^ 64 ∧ now - κ.time ≤ w)) : dropped w now κ = false := by
+/-- The retention hypothesis in the form of the property text: the epoch time is always retained, and so is
+an entry that was used at most one window before the clock reading (or later). -/
+theorem retained_epoch_or_recent (w now t : Nat) (κ : Key)
+    (h : κ.time = 0 ∨ (w ≤ now ∧ now < 2 ^ 64 ∧ now - t ≤ w)) : droppedAt w now t κ = false := by
   rcases h with h | ⟨h1, h2, h3⟩
-  · exact Lemmas.dropped_epoch w now κ h
-  · exact Lemmas.dropped_window w now κ h1 h2 h3
+  · exact Lemmas.droppedAt_epoch w now t κ h
+  · exact Lemmas.droppedAt_window w now t κ h1 h2 h3
 
 /-! ## All schedules of submissions -/
 
@@ -155,41 +166,43 @@ theorem update_mutually_exclusive (subs : Nat → Sub) (k0 : Keeper) (σ : List 
     (Lemmas.invL_run subs σ _ ⟨by simp [Node.init], by simp [Node.init]⟩) i j hi hj
 
 /-- **Distinct ids for every schedule.** `A` marks the submissions that take part. If no `clean` of
-a participating submission drops the tuple of a participating submission, then under EVERY schedule
+a participating submission comes more than a window after the clock reading of another participant (the
+tuple's last use), then under EVERY schedule
 any two submissions that have their number carry different ids. (`update` holds the mutex:
 `gen_update_locked`.) -/
 theorem ids_distinct (subs : Nat → Sub) (A : Nat → Prop) (k0 : Keeper) (σ : List Act)
     (hσ : ∀ i, Act.step i ∈ σ → A i)
-    (hret : ∀ i j, A i → A j → dropped Cfg.code.window (subs i).now (subs j).key = false)
+    (hret : ∀ i j, A i → A j → droppedAt Cfg.code.window (subs i).now (subs j).now (subs j).key = false)
     (i j : Nat) (hij : i ≠ j)
     (hi : Stamped (run Cfg.code subs (Node.init subs k0) σ) i)
     (hj : Stamped (run Cfg.code subs (Node.init subs k0) σ) j) :
     idOf subs (run Cfg.code subs (Node.init subs k0) σ) i ≠
       idOf subs (run Cfg.code subs (Node.init subs k0) σ) j :=
   Lemmas.ids_ne_of_inv subs A _
-    (Lemmas.inv_run subs A hret σ _ hσ (Lemmas.inv_init subs A k0)) i j hij hi hj
+    (Lemmas.inv_run subs A hret σ _ hσ (Lemmas.inv_init subs A k0 _)) i j hij hi hj
 
-/-- **k submissions with one source and one creation time** (the zero time, or a time not older
-than the window at every participant's clock reading): under every schedule of these k threads
-that lets all of them reach their number, the k ids are pairwise distinct. This is the full
-statement of the property for the counter, restricted by the retention hypothesis (see
-`retention_gap_witness` for what happens without it, `assigned_number_is_free` for what holds regardless). -/
+/-- **k submissions with one source and one creation time — ANY creation time** (zero, this millisecond, a
+year ago), submitted within one retention window of each other by the node's clock: under every schedule of
+these k threads that lets all of them reach their number, the k ids are pairwise distinct. This is the full
+statement of the property for the counter; the only hypothesis left is about the wall clock (the k
+submissions happen within 24 h) — before the repair of `clean` it was about the creation time
+(`retention_gap_witness`). `assigned_number_is_free` holds regardless. -/
 theorem ids_distinct_partial (k : Nat) (src : String) (t : Nat) (subs : Nat → Sub) (k0 : Keeper)
     (σ : List Act)
     (hσ : ∀ i, Act.step i ∈ σ → i < k)
     (hkey : ∀ i, i < k → (subs i).key = ⟨src, t⟩)
-    (hwin : t = 0 ∨ ∀ i, i < k → Cfg.code.window ≤ (subs i).now ∧ (subs i).now < 2 ^ 64 ∧
-      (subs i).now - t ≤ Cfg.code.window)
+    (hwin : t = 0 ∨ ∀ i j, i < k → j < k → Cfg.code.window ≤ (subs i).now ∧ (subs i).now < 2 ^ 64 ∧
+      (subs i).now - (subs j).now ≤ Cfg.code.window)
     (hall : ∀ i, i < k → Stamped (run Cfg.code subs (Node.init subs k0) σ) i) :
     ((List.range k).map (idOf subs (run Cfg.code subs (Node.init subs k0) σ))).Nodup := by
   have hret : ∀ i j, i < k → j < k →
-      dropped Cfg.code.window (subs i).now (subs j).key = false := by
+      droppedAt Cfg.code.window (subs i).now (subs j).now (subs j).key = false := by
     intro i j hi hj
     apply retained_epoch_or_recent
     rw [hkey j hj]
     rcases hwin with h | h
     · exact Or.inl h
-    · exact Or.inr (h i hi)
+    · exact Or.inr (h i j hi hj)
   rw [List.Nodup, List.pairwise_map]
   refine List.Pairwise.imp_of_mem ?_ List.nodup_range
   intro a b ha hb hab
@@ -212,13 +225,13 @@ the retention hypothesis: different bundles leave under different ids, are filed
 keys, and every submission that has passed `push` is filed exactly once. -/
 theorem distinct_in_store_and_on_wire (subs : Nat → Sub) (A : Nat → Prop) (k0 : Keeper)
     (σ : List Act) (hσ : ∀ i, Act.step i ∈ σ → A i)
-    (hret : ∀ i j, A i → A j → dropped Cfg.code.window (subs i).now (subs j).key = false)
+    (hret : ∀ i j, A i → A j → droppedAt Cfg.code.window (subs i).now (subs j).now (subs j).key = false)
     (htag : ∀ i j, (subs i).tag = (subs j).tag → i = j)
     (is : List Nat) (his : ∀ i ∈ is, Pushed (run Cfg.code subs (Node.init subs k0) σ) i) :
     SentIdsDistinct (obsOf (run Cfg.code subs (Node.init subs k0) σ)) ∧
     StoreKeysDistinct (obsOf (run Cfg.code subs (Node.init subs k0) σ)) ∧
     FiledOnce (is.map (fun i => (subs i).tag)) (obsOf (run Cfg.code subs (Node.init subs k0) σ)) := by
-  obtain ⟨h1, h2, h3⟩ := Lemmas.all_run subs A hret σ _ hσ (Lemmas.inv_init subs A k0)
+  obtain ⟨h1, h2, h3⟩ := Lemmas.all_run subs A hret σ _ hσ (Lemmas.inv_init subs A k0 _)
     (Lemmas.invS_init subs k0) (by intro i h; simp [Node.init] at h)
   exact ⟨Lemmas.sentDistinct_of_inv subs A _ h1 h2, Lemmas.storeDistinct_of_inv subs A _ h1 h2,
     Lemmas.filedOnce_of_inv subs _ htag h2 h3 is his⟩
@@ -235,26 +248,58 @@ theorem assigned_number_is_free (n : Node) (k : Key) :
     knows n.store ⟨k.source, k.time, stampSeq Cfg.code n k⟩ = false :=
   Lemmas.stampSeq_free n k
 
-/-- **D18, residual (known finding)**: a creation time more than a day older than the clock. The
-entry is dropped by the autoClean of the first submission, the second submission starts from 0 again.
-Since /repo 43cf7bc the stored number is skipped: while the first bundle is in the store the second one
-gets number 1 and is filed… -/
+/-- **D18, residual — repaired**: a creation time more than a day older than the clock. `clean` used to judge
+an entry by the tuple's creation time: the entry was dropped by the autoClean of the very submission that
+created it, the second submission started from 0 again. Now the entry is judged by its last use: numbers 0
+and 1, whatever the store holds … -/
 theorem retention_gap_filed_example :
     let subs := twoSubs 800000000000 (800000000000 + 86400000 + 1) 0
     let n := run Cfg.code subs (Node.init subs Keeper.empty) (seqSchedule Cfg.code 2)
     (idOf subs n 0).seq = 0 ∧ (idOf subs n 1).seq = 1 ∧ n.store.length = 2 ∧
+    n.keeper ⟨"n", 800000000000⟩ = some 1 ∧
     SentIdsDistinct (obsOf n) ∧ FiledOnce [0, 1] (obsOf n) := by decide +kernel
 
-/-- … and before that repair (`Cfg.noSkip`) it got number 0 again: same id on the wire, second bundle not
-filed. The same still happens on the wire when the first bundle has left the store in between (direct
-delivery deletes it; this model's store never forgets, the harness exhibits it: class
-`same-id-on-wire-creation-time-older-than-24h`), and for a bare IdKeeper (`update` without predicate,
-class `idkeeper-same-number-creation-time-older-than-24h`). -/
+/-- … with the old `clean` (`Cfg.byCreationTime`) the counter was gone after every submission; that the second
+bundle still got number 1 was the store's doing (43cf7bc: stored numbers are skipped) and held only while
+the first bundle was stored … -/
+theorem retention_gap_counter_witness :
+    let subs := twoSubs 800000000000 (800000000000 + 86400000 + 1) 0
+    let n := run Cfg.byCreationTime subs (Node.init subs Keeper.empty) (seqSchedule Cfg.byCreationTime 2)
+    n.keeper ⟨"n", 800000000000⟩ = none ∧
+    -- the first bundle delivered and deleted before the second submission: number 0 again
+    (let first := run Cfg.byCreationTime subs (Node.init subs Keeper.empty)
+        (List.replicate (prog Cfg.byCreationTime).length (.step 0))
+     let second := run Cfg.byCreationTime subs { first with store := [] }
+        (List.replicate (prog Cfg.byCreationTime).length (.step 1))
+     idOf subs second 0 = idOf subs second 1) ∧
+    -- the same history with the code as it is: numbers 0 and 1
+    (let first := run Cfg.code subs (Node.init subs Keeper.empty)
+        (List.replicate (prog Cfg.code).length (.step 0))
+     let second := run Cfg.code subs { first with store := [] }
+        (List.replicate (prog Cfg.code).length (.step 1))
+     idOf subs second 0 ≠ idOf subs second 1) := by decide +kernel
+
+/-- … and before 43cf7bc (`Cfg.noSkip`) it got number 0 again in any case: same id on the wire, second bundle
+not filed. -/
 theorem retention_gap_witness :
     let subs := twoSubs 800000000000 (800000000000 + 86400000 + 1) 0
     let n := run Cfg.noSkip subs (Node.init subs Keeper.empty) (seqSchedule Cfg.noSkip 2)
     idOf subs n 0 = idOf subs n 1 ∧ n.store.length = 1 ∧
     ¬ SentIdsDistinct (obsOf n) ∧ ¬ FiledOnce [0, 1] (obsOf n) := by decide +kernel
+
+/-- **What is left of D18 (known finding, by design of `clean`)**: a counter that was not used for more than the
+window is forgotten. Tuple `κ` (a non-zero creation time) gets number 0; 25 h later another tuple is numbered
+— its autoClean drops `κ` —; then `κ` is numbered again: 0 again. The hypothesis of `seq_consecutive` /
+`ids_distinct_partial` (submissions of one tuple within one window of each other) excludes exactly this. -/
+theorem unused_for_a_day_witness :
+    seqsOf 86400000 true ⟨"n", 800000000005⟩ Keeper.empty (fun _ => 0)
+      [.upd ⟨"n", 800000000005⟩ 800000000100, .upd ⟨"m", 7⟩ (800000000100 + 90000000),
+       .upd ⟨"n", 800000000005⟩ (800000000100 + 90000001)] = [0, 0] ∧
+    -- used again within the window instead: 0, 1
+    seqsOf 86400000 true ⟨"n", 800000000005⟩ Keeper.empty (fun _ => 0)
+      [.upd ⟨"n", 800000000005⟩ 800000000100, .upd ⟨"m", 7⟩ (800000000100 + 80000000),
+       .upd ⟨"n", 800000000005⟩ (800000000100 + 80000001)] = [0, 1] := by
+  decide +kernel
 
 /-- **After a restart** (the IdKeeper is empty, the store is not): a clock-less source's second bundle.
 Without the skip it takes the stored bundle's id and is not filed; with it, it is filed under number 1. -/
@@ -339,10 +384,10 @@ example :
     n.store.length = 3 ∧ n.sent.length = 6 := by decide +kernel
 
 example : ∀ i j, i < 3 → j < 3 →
-    dropped Cfg.code.window (demoSubs i).now (demoSubs j).key = false := by
-  intro i j _ _; simp [demoSubs, dropped]
+    droppedAt Cfg.code.window (demoSubs i).now (demoSubs j).now (demoSubs j).key = false := by
+  intro i j _ _; simp [demoSubs, droppedAt]
 
-example : seqsOf 86400000 true ⟨"n", 800000000005⟩ Keeper.empty
+example : seqsOf 86400000 true ⟨"n", 800000000005⟩ Keeper.empty (fun _ => 0)
     [.upd ⟨"n", 800000000005⟩ 800000000100, .upd ⟨"m", 800000000005⟩ 800000000100,
      .clean 800000000200, .upd ⟨"n", 800000000005⟩ 800000000300] = [0, 1] := by
   decide +kernel
@@ -359,11 +404,10 @@ example :
     (List.range 5).map (fun i => (idOf nonMonoSubs n i).seq) = [0, 0, 1, 0, 0] ∧
     ((List.range 5).map (idOf nonMonoSubs n)).Nodup ∧ n.store.length = 5 := by decide +kernel
 
-example : ∀ i j, dropped Cfg.code.window (nonMonoSubs i).now (nonMonoSubs j).key = false := by
+example : ∀ i j, droppedAt Cfg.code.window (nonMonoSubs i).now (nonMonoSubs j).now (nonMonoSubs j).key = false := by
   intro i j
   apply retained_epoch_or_recent
-  simp only [nonMonoSubs, Cfg.code]
-  rcases j with _ | _ | _ | _ | _ | j <;> simp
+  simp [nonMonoSubs, Cfg.code]
 
 example : stampedPc Cfg.code = 4 ∧ (prog Cfg.code).idxOf .push + 1 = 7 := by decide
 
